@@ -1,5 +1,178 @@
-import Sop.Model.Locks
+import Sop.Lemmas.Locks
+/-! # C28 — a lock is held by at most one owner and only its owner can release it
+
+Model: `Sop/Model/Locks.lean` (two implementations). `holders s k` = owners with a lease on `k` that was granted by
+a successful call, has not been unlocked by its owner and has not run out.  A run is an arbitrary list of calls
+(any owners, any keys, any durations, arbitrary clock advances between and — via `readCost` — inside calls; for the
+in-memory cache also any capacity, any shard function and any admissible eviction victim).
+
+* in-memory cache **with the proposed repair** (`protectLive = true`): `C28_mutex`, `C28_holder_confirmed`,
+  `C28_owner_release`, `C28_foreign_call_keeps_lease` at full strength; the code as it is: `C28_mem_counterexample`.
+* Redis: `C28_redis_counterexample_unlock`, `C28_redis_counterexample_ttl`; `C28_partial` under the usage rule
+  `redisDisciplined` (no `Unlock` of a flagged key that carries someone else's value, no `IsLockedTTL` that shortens
+  someone else's lease). -/
 namespace Sop.C28
 open Sop.Locks
-theorem stub : True := trivial
+
+/-! ## statements -/
+
+/-- full strength, in-memory: in every reachable state every key has at most one holder -/
+def Statement_C28_mutex_mem (cfg : MemCfg) : Prop :=
+  ∀ (ops : List MemOp) (k o1 o2 : Nat),
+    o1 ∈ memHolders (memRun cfg {} ops) k → o2 ∈ memHolders (memRun cfg {} ops) k → o1 = o2
+
+/-- full strength, Redis -/
+def Statement_C28_mutex_redis : Prop :=
+  ∀ (ops : List RedisOp) (k o1 o2 : Nat),
+    o1 ∈ redisHolders (redisRun {} ops) k → o2 ∈ redisHolders (redisRun {} ops) k → o1 = o2
+
+/-! ## in-memory cache with the repair: full strength -/
+
+theorem reachable_inv {cfg : MemCfg} (hp : cfg.protectLive = true) (ops : List MemOp) : MemInv (memRun cfg {} ops) :=
+  memRun_inv hp ops {} memInit_inv
+
+/-- **mutual exclusion**: for every capacity, shard function, clock behaviour, every list of calls with every
+admissible eviction choice and every expiry point, a key never has two holders -/
+theorem C28_mutex (cfg : MemCfg) (hp : cfg.protectLive = true) : Statement_C28_mutex_mem cfg :=
+  fun ops _ _ _ h1 h2 => (reachable_inv hp ops).mutex h1 h2
+
+/-- every holder is confirmed by the store: `IsLocked(o, k)` answers true for it -/
+theorem C28_holder_confirmed (cfg : MemCfg) (hp : cfg.protectLive = true) (ops : List MemOp) (k o : Nat)
+    (h : o ∈ memHolders (memRun cfg {} ops) k) : memHolds (memRun cfg {} ops) o k = true :=
+  (reachable_inv hp ops).confirmed h
+
+/-- **only the owner releases**: an `Unlock` by anybody else leaves the holder a holder, still confirmed by the store -/
+theorem C28_owner_release (cfg : MemCfg) (hp : cfg.protectLive = true) (ops : List MemOp) (k o o' : Nat) (keys : List Nat)
+    (h : o ∈ memHolders (memRun cfg {} ops) k) (hne : o ≠ o') :
+    o ∈ memHolders (memRun cfg {} (ops ++ [.unlock o' keys])) k ∧
+    memHolds (memRun cfg {} (ops ++ [.unlock o' keys])) o k = true := by
+  have hrun : memRun cfg {} (ops ++ [.unlock o' keys]) = memUnlock o' keys (memRun cfg {} ops) := by
+    simp [memRun, List.foldl_append, memStep]
+  have hh : o ∈ memHolders (memRun cfg {} (ops ++ [.unlock o' keys])) k := by
+    rw [hrun]
+    obtain ⟨g, hg, hk, hl, ho⟩ := mem_memHolders.1 h
+    refine mem_memHolders.2 ⟨g, memUnlock_keeps o' keys _ g hg (ho ▸ hne), hk, ?_, ho⟩
+    rw [memUnlock_now]; exact hl
+  exact ⟨hh, C28_holder_confirmed cfg hp _ k o hh⟩
+
+/-- no call made on behalf of another owner (or no owner: the clock) removes a lease; together with
+`C28_holder_confirmed` the holder stays confirmed until its own lease runs out or it unlocks itself -/
+theorem C28_foreign_call_keeps_lease (cfg : MemCfg) (s : Mem) (op : MemOp) (o : Nat) (h : memActor op ≠ some o) :
+    ∀ g ∈ s.grants, g.owner = o → g ∈ (memStep cfg s op).1.grants :=
+  memStep_keeps s op o h
+
+/-! ## in-memory cache as it is: violated -/
+
+def cfgOrig : MemCfg := { cap := 1, shardOf := fun _ => 0, protectLive := false, readCost := 2, defaultTtl := 900000000000 }
+def cfgFixed : MemCfg := { cfgOrig with protectLive := true }
+def hour : Nat := 3600000000000
+
+/-- DESIGN.md witness: capacity 1; A locks k1 for 1h, B locks k2 (same shard) and evicts A's entry, C locks k1 -/
+def memWitness : List MemOp := [.lock 1 hour [1] [], .lock 2 hour [2] [], .lock 3 hour [1] []]
+
+theorem C28_mem_counterexample : ¬ Statement_C28_mutex_mem cfgOrig := by
+  intro h
+  have := h memWitness 1 3 1 (by decide) (by decide)
+  exact absurd this (by decide)
+
+/-- the same calls against the repaired code: C is refused and told who holds the key -/
+example : (memStep cfgFixed (memRun cfgFixed {} [.lock 1 hour [1] [], .lock 2 hour [2] []]) (.lock 3 hour [1] [])).2
+    = { ok := false, owner := 1 } := by decide
+
+/-- non-vacuity: holders exist in reachable states of the repaired cache (takeover after expiry included) -/
+example : memHolders (memRun cfgFixed {} [.lock 1 1 [1] [], .adv 10, .lock 2 hour [1, 2] [], .unlock 1 [1]]) 1 = [2] := by decide
+
+/-! ## Redis: violated, holds under the usage rule -/
+
+/-- A locks k1 for 50 ms, the lease lapses, B locks k1, A calls Unlock (its flag is still set), C locks k1 -/
+def redisWitnessUnlock : List RedisOp :=
+  [.lock 1 50 [1], .adv 60, .lock 2 3600000 [1], .unlock 1 [1], .lock 3 3600000 [1]]
+
+theorem C28_redis_counterexample_unlock : ¬ Statement_C28_mutex_redis := by
+  intro h
+  have := h redisWitnessUnlock 1 3 2 (by decide) (by decide)
+  exact absurd this (by decide)
+
+/-- "only its owner can release it" fails as well: after A's Unlock, B is still a holder but its key is gone -/
+theorem C28_redis_owner_release_counterexample :
+    2 ∈ redisHolders (redisRun {} (redisWitnessUnlock.take 4)) 1 ∧
+    redisHolds (redisRun {} (redisWitnessUnlock.take 4)) 2 1 = false := by decide
+
+/-- A holds k1 for 1h; B's IsLockedTTL(50 ms) answers false but has rewritten the key's TTL; it lapses; C locks k1 -/
+def redisWitnessTtl : List RedisOp :=
+  [.lock 1 3600000 [1], .isLockedTTL 2 50 [1], .adv 60, .lock 3 3600000 [1]]
+
+theorem C28_redis_counterexample_ttl : ¬ Statement_C28_mutex_redis := by
+  intro h
+  have := h redisWitnessTtl 1 3 1 (by decide) (by decide)
+  exact absurd this (by decide)
+
+theorem mem_redisHolders {s : Redis} {k o : Nat} :
+    o ∈ redisHolders s k ↔ ∃ g ∈ s.grants, g.key = k ∧ s.now < g.dl ∧ g.owner = o := by
+  simp only [redisHolders, List.mem_map, List.mem_filter, Bool.and_eq_true, beq_iff_eq, decide_eq_true_eq]
+  constructor
+  · rintro ⟨g, ⟨hg, hk, hl⟩, ho⟩; exact ⟨g, hg, hk, hl, ho⟩
+  · rintro ⟨g, hg, hk, hl, ho⟩; exact ⟨g, ⟨hg, hk, hl⟩, ho⟩
+
+theorem RInv.confirmed {s : Redis} (h : RInv s) {k o : Nat} (ho : o ∈ redisHolders s k) : redisHolds s o k = true := by
+  obtain ⟨g, hg, hk, hl, rfl⟩ := mem_redisHolders.1 ho
+  obtain ⟨e, he, heo, hx⟩ := h g hg hl
+  have hvis : s.now < e.exp := Nat.lt_of_lt_of_le hl hx
+  unfold redisHolds vget
+  rw [← hk, he]
+  simp [hvis, heo]
+
+/-- **C28_partial (Redis)**: along every run that obeys the usage rule — every `Unlock` finds, under each key whose
+`IsLockOwner` flag is set, the caller's own value or nothing, and no `IsLockedTTL` shortens another owner's lease —
+a key never has two holders and every holder is confirmed by the server -/
+theorem C28_partial (ops : List RedisOp) (hd : redisDisciplined {} ops = true) :
+    (∀ k o1 o2, o1 ∈ redisHolders (redisRun {} ops) k → o2 ∈ redisHolders (redisRun {} ops) k → o1 = o2) ∧
+    (∀ k o, o ∈ redisHolders (redisRun {} ops) k → redisHolds (redisRun {} ops) o k = true) := by
+  have hi : RInv (redisRun {} ops) := redisRun_inv ops {} (by intro g hg; cases hg) hd
+  refine ⟨?_, fun k o h => RInv.confirmed hi h⟩
+  intro k o1 o2 h1 h2
+  obtain ⟨g1, hg1, hk1, hl1, rfl⟩ := mem_redisHolders.1 h1
+  obtain ⟨g2, hg2, hk2, hl2, rfl⟩ := mem_redisHolders.1 h2
+  exact Inv.unique (L := redisLive) hi hg1 hg2 hl1 hl2 (hk1.trans hk2.symm)
+
+/-- the ghost misses no holder: whenever the Redis `Lock` answers true (positive duration), the caller holds a live
+lease on every listed key afterwards (so "at most one holder" really speaks about every successful caller) -/
+theorem C28_redis_lock_grants (s : Redis) (o d : Nat) (keys : List Nat) (hd : 0 < d)
+    (hok : (redisStep s (.lock o d keys)).2.ok = true) : ∀ k ∈ keys, o ∈ redisHolders (redisStep s (.lock o d keys)).1 k := by
+  intro k hk
+  have h := redisLock_true_holds s o d keys hd hok k hk
+  obtain ⟨g, hg, hgk, hl, ho⟩ := h
+  exact mem_redisHolders.2 ⟨g, hg, hgk, hl, ho⟩
+
+/-- owner release under the rule: a disciplined `Unlock` by somebody else leaves the holder a confirmed holder -/
+theorem C28_redis_owner_release_partial (ops : List RedisOp) (k o o' : Nat) (keys : List Nat)
+    (hd : redisDisciplined {} (ops ++ [.unlock o' keys]) = true)
+    (h : o ∈ redisHolders (redisRun {} ops) k) (hne : o ≠ o') :
+    o ∈ redisHolders (redisRun {} (ops ++ [.unlock o' keys])) k ∧
+    redisHolds (redisRun {} (ops ++ [.unlock o' keys])) o k = true := by
+  have hrun : redisRun {} (ops ++ [.unlock o' keys]) = redisUnlock (redisRun {} ops) o' keys := by
+    simp [redisRun, List.foldl_append, redisStep]
+  have hh : o ∈ redisHolders (redisRun {} (ops ++ [.unlock o' keys])) k := by
+    rw [hrun]
+    obtain ⟨g, hg, hk, hl, ho⟩ := mem_redisHolders.1 h
+    refine mem_redisHolders.2 ⟨g, ?_, hk, ?_, ho⟩
+    · unfold redisUnlock
+      simp only []
+      rw [(delAll_same _ _).1]
+      exact mem_releaseAll.2 ⟨hg, fun ⟨_, h'⟩ => hne (ho ▸ h')⟩
+    · unfold redisUnlock
+      simp only []
+      rw [(delAll_same _ _).2.1]; exact hl
+  exact ⟨hh, (C28_partial _ hd).2 k o hh⟩
+
+/-- non-vacuity of the rule: a disciplined run with expiry, takeover, a refused lock, a lease extension and unlocks,
+ending with a holder -/
+example : redisDisciplined {} [.lock 1 50 [1], .adv 60, .lock 2 3600000 [1, 2], .lock 3 2000 [2, 3], .unlock 3 [2, 3],
+      .isLockedTTL 2 5000 [1, 2], .unlock 2 [2], .adv 1000] = true ∧
+    redisHolders (redisRun {} [.lock 1 50 [1], .adv 60, .lock 2 3600000 [1, 2], .lock 3 2000 [2, 3], .unlock 3 [2, 3],
+      .isLockedTTL 2 5000 [1, 2], .unlock 2 [2], .adv 1000]) 1 = [2] := by decide
+
+/-- the two witnesses are exactly runs that break the rule -/
+example : redisDisciplined {} redisWitnessUnlock = false ∧ redisDisciplined {} redisWitnessTtl = false := by decide
+
 end Sop.C28
